@@ -40,3 +40,20 @@ JOBS = [
                          "parameter of the function itself, which are trivially in its frame."}],
           "timeout": 900, "mem_gb": 6}),
 ]
+
+def _obs(name, defs, extra=None):
+    j = {"name": name, "props": ["C17"], "functions": ["setkey", "encrypt", "do_setkey_r", "do_encrypt_r", "pack_bits", "unpack_bits"],
+         "harness": "harness/des_obsolete.c", "defs": ["PIC=1"] + defs,
+         "replace_calls": ["get_des_ctx:get_des_ctx_stub"],
+         "unwind": 9, "mem_gb": 4, "timeout": 300, "no_native": True,
+         "checks": ["--bounds-check", "--pointer-check", "--pointer-overflow-check", "--signed-overflow-check"]}
+    j.update(extra or {})
+    return j
+
+JOBS += [
+    _obs("des_obsolete_static", ["DATA_OFF=16"]),
+    _obs("des_obsolete_reentrant", ["REENTRANT=1"],
+         {"functions": ["setkey_r", "encrypt_r", "do_setkey_r", "do_encrypt_r", "pack_bits", "unpack_bits"],
+          "cases": [("r%d" % k, None, ["DATA_OFF=%d" % (16 + k)]) for k in range(4)],
+          "assumptions": ["get_des_ctx replaced by its contract (aligned pointer inside data->internal); 4 residues of the data object's placement modulo alignof (struct des_ctx) enumerated"]}),
+]
